@@ -2,9 +2,9 @@
    Statements only; proofs live in Wal/*Proofs.v.  The executable model is Wal/WalModel.v
    (encoder, decoder, ReadAll, Verify, Repair, crash images), Wal/SnapModel.v, Wal/Crc32c.v +
    Wal/CrcTab.v, Wal/Pb.v; it is tied to the Go code by the differential run of ./check C16. *)
-Require Import Base.Bytes Wal.Crc32c Wal.CrcTab Wal.Pb Wal.WalModel Wal.SnapModel.
+Require Import Base.Bytes Wal.Crc32c Wal.CrcTab Wal.Pb Wal.WalModel Wal.WalSpec Wal.SnapModel.
 Require Import Wal.FrameProofs Wal.CrcProofs Wal.PbProofs Wal.WalProofs Wal.WalRefuted Wal.SnapProofs.
-Require Import Wal.TornProofs Wal.RepairProofs Wal.ReadAllProofs Wal.RoundtripProofs Wal.SnapFlipProofs Wal.FlipReadProofs.
+Require Import Wal.TornProofs Wal.RepairProofs Wal.ReadAllProofs Wal.RoundtripProofs Wal.SnapFlipProofs Wal.FlipReadProofs Wal.DurableProofs.
 Local Open Scope N_scope.
 
 (* ------------------------------------------------------------------ frames *)
@@ -114,6 +114,45 @@ Example C16_roundtrip_ex :
   /\ read_all true 0 0 (map file_bytes (w_files 4096 (w_run (Some [x6d]) ex_ops)))
      = RAOk (Some [x6d]) (mkhs 2 2 1) [ex_e 1 1 [x61]; ex_e 2 2 [x63; x64]; ex_e 2 3 []] true.
 Proof. vm_compute. repeat split; reflexivity. Qed.
+
+(* C16_completed_save_durable: the SYNC DECISION.  op_syncs mirrors the code: Create,
+   SaveSnapshot and cut end with w.sync(); Save syncs iff raft.MustSync(st, w.state, len(ents)) =
+   entries <> 0 \/ Vote changed \/ Term changed.  w_run_d carries, next to the writer state, the
+   durable state = the state at the last sync (what a crash between two calls leaves: later
+   records are still in the encoder's page buffer).  For ANY operation sequence, reading the
+   durable state returns exactly the entry log defined by ALL completed saves, and a hard state
+   whose Term and Vote are those of the last completed save.
+   Commit may lag: a Save that changes only Commit is deliberately not synced by etcd (Raft's
+   persistent state is currentTerm, votedFor, log[]; the commit index is recomputed), so the
+   theorem does not and must not promise it (C16_commit_may_lag_ex). *)
+Theorem C16_completed_save_durable : forall meta ops segsize log hs,
+  meta_ok meta -> Forall op_ok ops -> segsize mod 8 = 0 ->
+  spec_run ops = Some (log, hs) ->
+  exists hs_d,
+    read_all true 0 0 (map file_bytes (w_files segsize (snd (w_run_d meta ops)))) = RAOk meta hs_d log true
+    /\ hs_term hs_d = hs_term hs /\ hs_vote hs_d = hs_vote hs.
+Proof. exact completed_save_durable. Qed.
+Print Assumptions C16_completed_save_durable.
+
+(* the predicate ./check C16 evaluates on every process-kill image is implied by it *)
+Theorem C16_completed_ok_durable : forall meta ops segsize,
+  meta_ok meta -> Forall op_ok ops -> segsize mod 8 = 0 ->
+  completed_ok ops (read_all true 0 0 (map file_bytes (w_files segsize (snd (w_run_d meta ops))))) = true.
+Proof. exact completed_ok_durable. Qed.
+Print Assumptions C16_completed_ok_durable.
+
+(* a vote granted in an already known term (no entries) is durable when Save returns … *)
+Example C16_vote_only_durable_ex :
+  let ops := [OpSave (mkhs 2 0 0) []; OpSave (mkhs 2 3 0) []] in
+  read_all true 0 0 (map file_bytes (w_files 4096 (snd (w_run_d None ops)))) = RAOk None (mkhs 2 3 0) [] true.
+Proof. vm_compute. reflexivity. Qed.
+(* … a commit-only update is not: after the crash the old commit index is read *)
+Example C16_commit_may_lag_ex :
+  let ops := [OpSave (mkhs 1 1 0) [ex_e 1 1 [x61]]; OpSave (mkhs 1 1 1) []] in
+  spec_run ops = Some ([ex_e 1 1 [x61]], mkhs 1 1 1)
+  /\ read_all true 0 0 (map file_bytes (w_files 4096 (snd (w_run_d None ops))))
+     = RAOk None (mkhs 1 1 0) [ex_e 1 1 [x61]] true.
+Proof. vm_compute. split; reflexivity. Qed.
 
 (* a single changed byte inside the CRC-covered data of a stored record: the stored bytes are
    the original frame with that one byte replaced, and decodeRecord rejects them — with
